@@ -59,7 +59,14 @@ def classify_all(ctx, rule='OWN/classified'):
   for name, fi in mi.functions.items():
     n = sum(name in t for t in (RETURNS_NEW, READ_ONLY, IN_PLACE, NO_SEQUENCE_PARAM))
     if n != 1:
-      ctx.require(False, 'sequences_lib.%s is not classified in the ownership contract table (new operation?)' % name)
+      # a new *private* helper has no contract of its own: it is analysed, inlined, wherever a contract function calls it
+      # (the writes it makes are attributed to the caller's arguments); a new public function is a new operation whose
+      # contract is not known - the run cannot vouch for it
+      if n == 0 and name.startswith('_'):
+        ctx.ob(rule, fi, fi.node, True, 'new private helper %s: analysed through the contract functions that call it' % name, construct='%s has no contract of its own' % name)
+        continue
+      why = 'cannot classify: sequences_lib.%s is not in the ownership contract table (a new operation?)' % name
+      ctx.ob(rule, fi, fi.node, False, why, construct='%s is classified' % name, unknown=why)
   for t in (RETURNS_NEW, READ_ONLY):
     for name in t:
       ctx.require(name in mi.functions, 'contract function sequences_lib.%s vanished' % name)
